@@ -33,17 +33,23 @@ func (eng *Engine) lemmaUnitsOf(pkgPath string) []*UnitResult {
 	cs := eng.contractsOf(pkgPath)
 	var out []*UnitResult
 	for i, name := range cs.LemmaSeq {
-		r := eng.proveLemma(cs, cs.Lemmas[name], cs.LemmaSeq[:i])
+		owner := "lemma"
 		if p, ok := eng.pkgs[pkgPath]; ok {
-			r.Pkg = p.Types.Name() + "/lemma"
+			owner = "lemma_" + eng.shortName(p)
 		}
+		r := eng.proveLemma(cs, cs.Lemmas[name], cs.LemmaSeq[:i], owner)
+		r.Pkg = owner
 		out = append(out, r)
 	}
 	return out
 }
 
-func (eng *Engine) proveLemma(cs *ContractSet, lm *Lemma, earlier []string) *UnitResult {
-	u := &Unit{eng: eng, fset: eng.fset, pkgName: "theory", key: lm.Name, c: newCtx(false, nil), cs: cs, nameCount: map[string]int{},
+func (eng *Engine) proveLemma(cs *ContractSet, lm *Lemma, earlier []string, owner ...string) *UnitResult {
+	pkgName := "theory"
+	if len(owner) > 0 {
+		pkgName = owner[0]
+	}
+	u := &Unit{eng: eng, fset: eng.fset, pkgName: pkgName, key: lm.Name, c: newCtx(false, nil), cs: cs, nameCount: map[string]int{},
 		paramSyms: map[string]string{}, unfolded: map[string]bool{}, exprCount: map[string]int{}, calledContracts: map[string]bool{},
 		usedLemmas: map[string]bool{}, externalCalls: map[string]bool{}, loopsSeen: map[int]bool{}, sliceDefs: map[string]string{}, lenHints: map[string]int64{}, rangeVars: map[int]*types.Var{}, visitedVars: map[int]*types.Var{},
 		entryVals: map[*types.Var]Term{}}
